@@ -172,6 +172,19 @@ def run_case(case, ctx):
             bad = int(np.nanargmax(np.abs(vl - np.tile(ref, reps)))) if vl.shape == xl.shape else -1
             ctx.violation("accuracy", "gaussian on a %d-point array differs from the reference (first bad index %d)" % (len(xl), bad),
                           observed=float(vl[bad]) if bad >= 0 else list(vl.shape), expected=float(np.tile(ref, reps)[bad]) if bad >= 0 else len(xl), extra={"r": r})
+    # evaluation points given as INTEGER-typed arrays (np.arange pixel corners), both or one of them: the CDF values
+    # are those at the equal floats (a result buffer or an intermediate must not take the integer dtype)
+    gi = np.arange(-3, 5, dtype=np.int64)
+    XI, YI = np.meshgrid(gi, gi, indexing="ij")
+    xi, yi = XI.ravel(), YI.ravel()
+    refi = np.array([phi2(float((a_ - mu[0]) / sx), float((b_ - mu[1]) / sy), float(r_eff)) for a_, b_ in zip(xi, yi)])
+    for what, ax_, ay_ in (("int64 x and y", xi, yi), ("int32 x, float y", xi.astype(np.int32), yi.astype(float)), ("float x, int16 y", xi.astype(float), yi.astype(np.int16))):
+        vi = np.asarray(ctx.call(ik.gaussian, ax_, ay_, mu=np.array(mu), sigma=sigma), dtype=float)
+        ctx.valid(len(refi))
+        if vi.shape != refi.shape or not np.all(np.abs(vi - refi) <= TOL):
+            i = int(np.nanargmax(np.abs(vi - refi))) if vi.shape == refi.shape else 0
+            ctx.violation("accuracy-int-points", "gaussian at integer-typed evaluation points (%s) differs from the reference" % what,
+                          observed=float(vi[i]) if vi.shape == refi.shape else list(vi.shape), expected=float(refi[i]), extra={"x": int(xi[i]), "y": int(yi[i]), "r": r})
     # one-point arrays and x/y roles: P(X<=x, Y<=y) with unequal marginals
     for a, b in ((0.3, -1.0), (2.0, 0.0)):
         v1 = np.asarray(ctx.call(ik.gaussian, np.array([mu[0] + a * sx]), np.array([mu[1] + b * sy]), mu=np.array(mu), sigma=sigma), dtype=float)
